@@ -270,6 +270,32 @@ def default_file_checks():
             checks[f"{name}_binary_default_writes_empty_output"] = buf.getvalue() == b""
         except Exception:
             checks[f"{name}_binary_default_writes_empty_output"] = False
+    # a file constructed without arguments writes empty output to a PATH as well: to a fresh path (the file
+    # exists and is empty) and to a path that holds the earlier output of ANOTHER file object
+    import os
+    import shutil
+    import tempfile
+
+    d = tempfile.mkdtemp(prefix="cfi_c14_")
+    try:
+        for name in ("RF", "BF", "SF"):
+            F = env[name]
+            try:
+                other = F()
+                other.data.append(type(other.data.first)(data="earlier output of another file\n"))
+                used = os.path.join(d, name + "_used.txt")
+                other.write(used)
+                F().write(used)
+                fresh = os.path.join(d, name + "_fresh.txt")
+                F().write(fresh)
+                with open(used, encoding="utf-8") as fh:
+                    u = fh.read()
+                checks[f"{name}_default_written_to_a_used_path_leaves_it_empty"] = u == ""
+                checks[f"{name}_default_written_to_a_fresh_path_creates_an_empty_file"] = os.path.isfile(fresh) and os.path.getsize(fresh) == 0
+            except Exception:
+                checks[f"{name}_default_written_to_a_used_path_leaves_it_empty"] = False
+    finally:
+        shutil.rmtree(d, ignore_errors=True)
     # line results: the list a Line.read / Line.values returns belongs to the caller (a block or a section
     # keeps it as its data): a later read through the same Line, or a change made to a later result, never
     # changes an earlier one — in text (positional, delimited) and in binary storage
